@@ -340,7 +340,8 @@ func cmdCheck(args []string) {
 		}
 	}
 	for _, k := range known.Entries {
-		if k.Status == "open" && k.Property == prop && hits[k.Signature] > 0 {
+		// every listed open finding of this property is announced, whether or not this batch reached it
+		if k.Status == "open" && k.Property == prop {
 			fmt.Printf("KNOWN-FINDING: property=%s %s (signature %s, matched in %d runs)\n", prop, k.WhatFails, k.Signature, hits[k.Signature])
 		}
 	}
